@@ -65,7 +65,7 @@ func (mem *Memory) Get(key string) (*rspb.Release, error) {
 	defer unlock(mem.rlock())
 
 	keyWithoutPrefix := strings.TrimPrefix(key, "sh.helm.release.v1.")
-	switch elems := strings.Split(keyWithoutPrefix, ".v"); len(elems) {
+	switch elems := splitReleaseKey(keyWithoutPrefix); len(elems) {
 	case 2:
 		name, ver := elems[0], elems[1]
 		if _, err := strconv.Atoi(ver); err != nil {
@@ -200,7 +200,7 @@ func (mem *Memory) Delete(key string) (*rspb.Release, error) {
 	defer unlock(mem.wlock())
 
 	keyWithoutPrefix := strings.TrimPrefix(key, "sh.helm.release.v1.")
-	elems := strings.Split(keyWithoutPrefix, ".v")
+	elems := splitReleaseKey(keyWithoutPrefix)
 
 	if len(elems) != 2 {
 		return nil, ErrInvalidKey
@@ -220,6 +220,16 @@ func (mem *Memory) Delete(key string) (*rspb.Release, error) {
 		}
 	}
 	return nil, ErrReleaseNotFound
+}
+
+// splitReleaseKey splits "<name>.v<version>" into name and version at the last
+// ".v": release names may themselves contain ".v" (for example "my.v2app").
+func splitReleaseKey(key string) []string {
+	idx := strings.LastIndex(key, ".v")
+	if idx < 0 {
+		return []string{key}
+	}
+	return []string{key[:idx], key[idx+2:]}
 }
 
 // wlock locks mem for writing
